@@ -57,7 +57,7 @@ func filterLocator(f Filter) Locator {
 func tryLocation(s string) (Location, bool) {
 	var parser pars.Parser
 	parser = pars.Any(parseComplement(&parser), parseRange, parsePoint)
-	result, err := parser.Parse(pars.FromString(s))
+	result, err := pars.Exact(parser).Parse(pars.FromString(s))
 	if err != nil {
 		return nil, false
 	}
